@@ -15,7 +15,9 @@
 
    --param intr=1: the caller's first two futex waits return EINTR (what the kernel does when a signal with a handler is
    delivered to the sleeping thread, even with SA_RESTART for absolute timeouts): an interrupted wait must not be taken for
-   an expired deadline ("a future deadline does not time out early").  */
+   an expired deadline ("a future deadline does not time out early").
+   --param intr=2: the caller's first futex wait returns 0 at once although nobody posted (FUTEX_WAIT may do so: a stale
+   FUTEX_WAKE for a post that was already consumed): the wait must go back to sleep and still honour its deadline.  */
 #include "sc.h"
 #include <limits.h>
 
@@ -204,7 +206,8 @@ static int setup (uint64_t seed) {
 	S.ctr = nsync_counter_new (1); S.ctr2 = nsync_counter_new (1);
 	S.cond = 0; S.returned = 0; S.event_done = 0; S.result = -1;
 	make_deadline ();
-	if (rt_param ("intr", 0)) { static const int plan[2] = { EINTR, EINTR }; rt_fault_plan (0, plan, 2); rt_cover (CV_INTR); }
+	if (rt_param ("intr", 0) == 1) { static const int plan[2] = { EINTR, EINTR }; rt_fault_plan (0, plan, 2); rt_cover (CV_INTR); }
+	if (rt_param ("intr", 0) == 2) { static const int plan[2] = { RT_FAULT_SPURIOUS_WAKE, 0 }; rt_fault_plan (0, plan, 2); rt_cover (CV_INTR); }
 	rt_cover (CV_CASES);
 	rt_ev ((uint32_t) c);
 	rt_mark_nontrivial ();
